@@ -305,6 +305,49 @@ def apply_rename(lexemes, kinds, plan):
 
 # ---------------------------------------------------------------- robustness mutations (C10)
 
+BINOPS = ["+", "-", "*", "/", "%", "&", "|", "^", "<<", ">>", "==", "!=", "<", ">", "<=", ">=", "&&", "||"]
+TYPEWORDS = ["f32", "i32", "u32", "bool", "vec2<f32>", "vec3<f32>", "vec4<f32>", "vec2<i32>", "vec3<u32>", "vec4<i32>",
+             "mat2x2<f32>", "mat3x3<f32>", "mat4x4<f32>", "array<f32,4>", "array<u32,2>", "f16", "vec2<bool>"]
+LITS = ["0", "1", "2", "31", "32", "4294967295", "2147483647", "-1", "0u", "1u", "0.0", "1.0", "0.5", "1e38", "true", "false",
+        "2147483648", "1i", "1f", "0x7fffffff", "4294967296", "1e39", "0xffffffffu"]
+
+
+def mutate_gentle(lexemes, kinds, rng):
+    """Substitutions that keep the token stream grammatical most of the time:
+    identifier <-> identifier of the same file, literal <-> literal, binary
+    operator <-> binary operator, scalar/vector type <-> another type."""
+    ls = list(lexemes)
+    idents = sorted({l for l, k in zip(lexemes, kinds) if k == "Ident"})
+    for _ in range(1 + rng.below(3)):
+        if not ls:
+            break
+        i = rng.below(len(ls))
+        k = kinds[i] if i < len(kinds) else ""
+        if k == "Ident" and idents:
+            ls[i] = rng.choice(idents)
+        elif k in ("IntLiteral", "FloatLiteral") or ls[i] in ("true", "false"):
+            ls[i] = rng.choice(LITS)
+        elif ls[i] in BINOPS:
+            ls[i] = rng.choice(BINOPS)
+        elif ls[i] in ("f32", "i32", "u32", "bool", "f16"):
+            ls[i] = rng.choice(["f32", "i32", "u32", "bool", "f16"])
+        elif ls[i] in ("vec2", "vec3", "vec4"):
+            ls[i] = rng.choice(["vec2", "vec3", "vec4"])
+        elif ls[i].startswith("mat") and len(ls[i]) == 6:
+            ls[i] = rng.choice(["mat2x2", "mat2x3", "mat3x2", "mat3x3", "mat4x4", "mat4x3"])
+        else:
+            # statement-level: duplicate or delete a whole `...;` statement
+            ends = [j for j, l in enumerate(ls) if l == ";"]
+            if len(ends) >= 2:
+                a = rng.below(len(ends) - 1)
+                s0, s1 = ends[a] + 1, ends[a + 1] + 1
+                if rng.chance(1, 2):
+                    ls[s0:s0] = ls[s0:s1]
+                else:
+                    del ls[s0:s1]
+    return ls
+
+
 def mutate_tokens(lexemes, rng):
     ls = list(lexemes)
     if not ls:
@@ -331,10 +374,10 @@ def mutate_tokens(lexemes, rng):
     return ls
 
 
-def deep_inputs():
+def deep_inputs(sizes=(100, 1000)):
     """Deeply nested / very long constructs (each <= 64 KiB)."""
     out = []
-    for n in (100, 1000, 5000, 15000):
+    for n in sizes:
         out.append(("parens%d" % n, "fn f() { let x = " + "(" * n + "1" + ")" * n + "; }"))
         out.append(("unary%d" % n, "fn f() { let x = " + "-" * n + "1; }"))
         out.append(("bang%d" % n, "fn f() { let x = " + "!" * n + "true; }"))
@@ -362,4 +405,4 @@ def deep_inputs():
     out.append(("hugearray3", "var<workgroup> a: array<array<f32, 65535>, 65535>; @compute @workgroup_size(1) fn main() { a[0][0] = 1.0; }"))
     out.append(("hugewg", "@compute @workgroup_size(4294967295, 4294967295, 4294967295) fn main() {}"))
     out.append(("longident", "fn " + "a" * 60000 + "() {}"))
-    return out
+    return [(n, s) for n, s in out if len(s.encode("utf-8")) <= 65536]
